@@ -37,10 +37,12 @@ class C:
     @property
     def p(self) -> int: ...
 x: int = 0
+def t(a) -> tuple[int, str]: ...
+def gen2(a: int, b=0, *c, d: str = "", **e) -> Generator[int, str]: ...
 '''
 _MOD = visit("m", Path("m.py"), _SRC)
-PARENTS = [None, _MOD, _MOD["C"], _MOD["f"], _MOD["C.__init__"], _MOD["C.p"], _MOD["g"], _MOD["x"]]
-PARENT_NAMES = ["none", "module", "class", "function", "__init__", "property", "generator-function", "attribute"]
+PARENTS = [None, _MOD, _MOD["C"], _MOD["gen2"], _MOD["C.__init__"], _MOD["C.p"], _MOD["g"], _MOD["x"], _MOD["t"], _MOD["f"]]
+PARENT_NAMES = ["none", "module", "class", "function (annotated parameters, returns a 2-element Generator[...])", "__init__", "property", "generator-function", "attribute", "function -> tuple[int, str]", "function -> int"]
 
 
 class Fuel(Exception):
@@ -127,7 +129,7 @@ def _parse(style, d, o1, o2, o3, o4, o5, o6, o7, o8):
 # ------------------------------------------------------------------------------------------ chars family
 ALPHA = {"google": "a:\n -(`>", "numpy": "a:\n -`>", "sphinx": "a:\n p`"}
 NCHARS = {"google": tiered(2, 3), "numpy": tiered(3, 4), "sphinx": tiered(4, 5)}
-CHAR_PARENTS = tiered((0, 3), (0, 3, 5))
+CHAR_PARENTS = tiered((0, 3), (0, 3, 5, 9))
 
 
 def _chars_pre(style):
@@ -239,9 +241,9 @@ def _idx(style, bodies):
 # (obligation suffix, K, body subset, parents, tiers)
 LINE_CONFIGS = {
     "google": [
-        ("lines", 2, tiered(_idx("google", ["", "text", "Args:", "Returns:", "Yields:", "Raises:", "Note:", "Note: title", "Examples:", "x (int): d", "x: d", "int: d", ">>> a", "```"]), list(range(len(VOCAB["google"])))), tiered((0, 3), (0, 3, 5))),
+        ("lines", 2, tiered(_idx("google", ["", "text", "Args:", "Returns:", "Yields:", "Raises:", "Note:", "Note: title", "Examples:", "x (int): d", "x: d", "int: d", ">>> a", "```"]), list(range(len(VOCAB["google"])))), tiered((0, 3), (0, 3, 5, 9))),
         ("lines3", 3, _idx("google", ["", "text", "Args:", "Returns:", "Note: title", "x: d", "int: d", "```", "Examples:"]), (0, 3)) if TIER == "thorough" else None,
-        ("lines4", 4, _idx("google", ["", "text", "Returns:", "Note: title", "```"]), (0,)) if TIER == "thorough" else None,
+        ("lines4", 4, _idx("google", ["", "text", "Returns:", "Note: title", "```", "x: d"]), (0, 8)) if TIER == "thorough" else None,
     ],
     "numpy": [
         ("lines", 2, tiered(_idx("numpy", ["", "text", "Parameters", "----------", "Returns", "-------", "Raises", "Examples", "x : int", "x", "int", "d", ">>> a", "```", "x : int, default 0", ".. note::"]), list(range(len(VOCAB["numpy"])))), tiered((0, 3), (0, 3, 5))),
